@@ -62,7 +62,7 @@ def main():
     dst = os.path.join(VERIF, "seeded", name)
     os.makedirs(dst, exist_ok=True)
     for f in ("patch.diff", "demo.py", "notes.md"):
-        if os.path.exists(os.path.join(src, f)):
+        if os.path.exists(os.path.join(src, f)) and os.path.abspath(src) != os.path.abspath(dst):
             shutil.copy(os.path.join(src, f), dst)
     meta = dict(name=name, property=prop, needs_to_manifest=needs,
                 origin="independent sub-agent given only the property text and a scratch worktree",
